@@ -36,6 +36,9 @@ pub struct Cfg {
     pub min_delay: u32,
     pub with_executors: bool,
     pub delays: std::vec::Vec<u32>, // op k = update_delay(delays[k]) with salt k
+    /// what op k does: 0 update_delay(delays[k]) · 1 grant_role(actor 3, canceller) · 2 revoke_role(actor 1, canceller)
+    #[serde(default)]
+    pub kinds: std::vec::Vec<u8>,
 }
 // actors: 0 stranger/attacker, 1 proposer(+canceller), 2 executor, 3 other
 #[derive(Clone, Copy, Debug, PartialEq)]
@@ -49,6 +52,7 @@ struct Model {
     st: std::vec::Vec<S>,
     min: u32,
     now: u32,
+    cancellers: std::collections::BTreeSet<usize>,
 }
 #[derive(Debug, PartialEq)]
 enum Exp {
@@ -56,20 +60,39 @@ enum Exp {
     Fail,
     Unspecified,
 }
+fn kind_of(cfg: &Cfg, k: usize) -> u8 {
+    cfg.kinds.get(k).copied().unwrap_or(0)
+}
 impl Model {
+    fn effect(&mut self, cfg: &Cfg, k: usize) {
+        match kind_of(cfg, k) {
+            0 => self.min = cfg.delays[k],
+            1 => {
+                self.cancellers.insert(3);
+            }
+            _ => {
+                self.cancellers.remove(&1);
+            }
+        }
+    }
+    /// would the admin-only call itself succeed once authorised? (revoking a role nobody holds is refused)
+    fn call_ok(&self, cfg: &Cfg, k: usize) -> bool {
+        kind_of(cfg, k) != 2 || self.cancellers.contains(&1)
+    }
     fn self_exec(&mut self, cfg: &Cfg, k: usize, meta: Meta, executor_signs: bool) -> Exp {
         let ready = matches!(self.st[k], S::Pending(r) if r <= self.now);
         let exec_ok = if cfg.with_executors { executor_signs } else { true };
         match meta {
+            _ if !self.call_ok(cfg, k) => Exp::Fail,
             Meta::Honest if ready && exec_ok => {
                 self.st[k] = S::Done;
-                self.min = cfg.delays[k];
+                self.effect(cfg, k);
                 Exp::Ok
             }
             // without executors configured the executor field is irrelevant
             Meta::NoExecutor | Meta::StrangerExecutor if !cfg.with_executors && ready => {
                 self.st[k] = S::Done;
-                self.min = cfg.delays[k];
+                self.effect(cfg, k);
                 Exp::Ok
             }
             Meta::Extra => Exp::Unspecified,
@@ -107,15 +130,15 @@ impl Check for Controller {
     }
     fn generate(&self, rng: &mut Rng, tier: Tier) -> (Cfg, std::vec::Vec<Step>) {
         let nops = 2 + rng.below(3) as usize;
-        let cfg = Cfg { start_ledger: 2 + rng.below(100_000) as u32, min_delay: 1 + rng.below(20) as u32, with_executors: rng.chance(60), delays: (0..nops).map(|k| [0u32, 3, 40, 7, 1][k % 5] + rng.below(2) as u32 * 100).collect() };
+        let cfg = Cfg { start_ledger: 2 + rng.below(100_000) as u32, min_delay: 1 + rng.below(20) as u32, with_executors: rng.chance(60), delays: (0..nops).map(|k| [0u32, 3, 40, 7, 1][k % 5] + rng.below(2) as u32 * 100).collect(), kinds: (0..nops).map(|_| match rng.below(10) { 0..=5 => 0, 6..=7 => 1, _ => 2 }).collect() };
         let nsteps = if tier == Tier::Quick { 20 + rng.below(30) } else { 20 + rng.below(60) } as usize;
-        let mut m = Model { st: vec![S::Unset; nops], min: cfg.min_delay, now: cfg.start_ledger };
+        let mut m = Model { st: vec![S::Unset; nops], min: cfg.min_delay, now: cfg.start_ledger, cancellers: [1usize].into_iter().collect() };
         let mut steps = vec![];
         for _ in 0..nsteps {
             let k = rng.below(nops as u64) as usize;
             let s = match rng.below(100) {
                 0..=24 => Step::Schedule { k, delay_over_min: match rng.below(5) { 0 => -1, 1 => 0, _ => rng.below(5) as i64 }, proposer: if rng.chance(88) { 1 } else { 0 }, signed: !rng.chance(6) },
-                25..=30 => Step::Cancel { k, canceller: if rng.chance(85) { 1 } else { 0 }, signed: !rng.chance(6) },
+                25..=30 => Step::Cancel { k, canceller: match rng.below(10) { 0 => 0, 1..=3 => 3, _ => 1 }, signed: !rng.chance(6) },
                 31..=74 => {
                     let meta = match rng.below(12) { 0..=4 => Meta::Honest, 5 => Meta::Empty, 6 => Meta::Void, 7 => Meta::WrongSalt, 8 => Meta::WrongPred, 9 => Meta::NoExecutor, 10 => Meta::StrangerExecutor, _ => Meta::Extra };
                     Step::SelfExec { k, meta, executor_signs: !rng.chance(10) }
@@ -134,7 +157,7 @@ impl Check for Controller {
                     }
                 }
                 Step::Cancel { k, canceller, signed } => {
-                    if *signed && *canceller == 1 && matches!(m.st[*k], S::Pending(_)) {
+                    if *signed && m.cancellers.contains(canceller) && matches!(m.st[*k], S::Pending(_)) {
                         m.st[*k] = S::Unset;
                     }
                 }
@@ -155,10 +178,18 @@ impl Check for Controller {
         let c = TimelockControllerClient::new(e, &id);
         let zero = BytesN::<32>::from_array(e, &[0u8; 32]);
         let salt = |k: usize| BytesN::<32>::from_array(e, &[k as u8 + 1; 32]);
-        let fname = Symbol::new(e, "update_delay");
-        let args_of = |k: usize| -> Vec<Val> { svec![e, cfg.delays[k].into_val(e)] };
-        let ids: std::vec::Vec<BytesN<32>> = (0..cfg.delays.len()).map(|k| c.hash_operation(&id, &fname, &args_of(k), &zero, &salt(k))).collect();
-        let mut m = Model { st: vec![S::Unset; cfg.delays.len()], min: cfg.min_delay, now: cfg.start_ledger };
+        let canceller_role = Symbol::new(e, "canceller");
+        let fname_str = |k: usize| -> &'static str { match kind_of(cfg, k) { 0 => "update_delay", 1 => "grant_role", _ => "revoke_role" } };
+        let fname_of = |k: usize| Symbol::new(e, fname_str(k));
+        let args_of = |k: usize| -> Vec<Val> {
+            match kind_of(cfg, k) {
+                0 => svec![e, cfg.delays[k].into_val(e)],
+                1 => (a(3), canceller_role.clone(), id.clone()).into_val(e),
+                _ => (a(1), canceller_role.clone(), id.clone()).into_val(e),
+            }
+        };
+        let ids: std::vec::Vec<BytesN<32>> = (0..cfg.delays.len()).map(|k| c.hash_operation(&id, &fname_of(k), &args_of(k), &zero, &salt(k))).collect();
+        let mut m = Model { st: vec![S::Unset; cfg.delays.len()], min: cfg.min_delay, now: cfg.start_ledger, cancellers: [1usize].into_iter().collect() };
         for (i, s) in steps.iter().enumerate() {
             w.set_auth(&[]);
             let before = w.storage_digest(&[&id]);
@@ -170,11 +201,11 @@ impl Check for Controller {
                 }
                 Step::Schedule { k, delay_over_min, proposer, signed } => {
                     let d = (m.min as i64 + delay_over_min).max(0) as u32;
-                    let args: Vec<Val> = (id.clone(), fname.clone(), args_of(*k), zero.clone(), salt(*k), d, a(*proposer)).into_val(e);
+                    let args: Vec<Val> = (id.clone(), fname_of(*k), args_of(*k), zero.clone(), salt(*k), d, a(*proposer)).into_val(e);
                     if *signed {
                         w.set_auth(&[(*proposer, Inv::new(&id, "schedule_op", args))]);
                     }
-                    let got = c.try_schedule_op(&id, &fname, &args_of(*k), &zero, &salt(*k), &d, &a(*proposer)).is_ok();
+                    let got = c.try_schedule_op(&id, &fname_of(*k), &args_of(*k), &zero, &salt(*k), &d, &a(*proposer)).is_ok();
                     let exp = *signed && *proposer == 1 && m.st[*k] == S::Unset && d >= m.min;
                     st.tx("schedule_op", got);
                     if got != exp {
@@ -189,7 +220,7 @@ impl Check for Controller {
                         w.set_auth(&[(*canceller, Inv::new(&id, "cancel_op", (ids[*k].clone(), a(*canceller)).into_val(e)))]);
                     }
                     let got = c.try_cancel_op(&ids[*k], &a(*canceller)).is_ok();
-                    let exp = *signed && *canceller == 1 && matches!(m.st[*k], S::Pending(_));
+                    let exp = *signed && m.cancellers.contains(canceller) && matches!(m.st[*k], S::Pending(_));
                     st.tx("cancel_op", got);
                     if got != exp {
                         return Err(violation("roles.schedule_cancel_execute", "cancel_op", i, format!("{s:?}: real {got} model {exp}; {m:?}")));
@@ -221,13 +252,13 @@ impl Check for Controller {
                         }
                         None => xdr::ScVal::Void,
                     };
-                    let inv = Inv::new(&id, "update_delay", args_of(*k));
+                    let inv = Inv::new(&id, fname_str(*k), args_of(*k));
                     let entry = xdr::SorobanAuthorizationEntry {
                         credentials: xdr::SorobanCredentials::Address(xdr::SorobanAddressCredentials { address: (&id).try_into().unwrap(), nonce: w.next_nonce(), signature_expiration_ledger: w.now() + 100, signature: sig }),
                         root_invocation: inv.to_xdr(e),
                     };
                     // executor (actor 2; the stranger for StrangerExecutor) authorises the execute_op-tagged arguments
-                    let exec_args: Vec<Val> = (Symbol::new(e, "execute_op"), id.clone(), fname.clone(), args_of(*k), zero.clone(), salt(*k)).into_val(e);
+                    let exec_args: Vec<Val> = (Symbol::new(e, "execute_op"), id.clone(), fname_of(*k), args_of(*k), zero.clone(), salt(*k)).into_val(e);
                     let mut wallets = vec![];
                     if *executor_signs {
                         let who = if *meta == Meta::StrangerExecutor { 0 } else { 2 };
@@ -235,7 +266,7 @@ impl Check for Controller {
                     }
                     w.set_auth_mixed(&wallets, vec![entry]);
                     let was_ready = matches!(m.st[*k], S::Pending(r) if r <= m.now);
-                    let got = c.try_update_delay(&cfg.delays[*k]).is_ok();
+                    let got = e.try_invoke_contract::<Val, soroban_sdk::Error>(&id, &fname_of(*k), args_of(*k)).map(|r| r.is_ok()).unwrap_or(false);
                     let snapshot = m.clone();
                     let exp = m.self_exec(cfg, *k, *meta, *executor_signs);
                     st.tx(&format!("self_admin.{:?}", meta), got);
@@ -251,7 +282,7 @@ impl Check for Controller {
                                 return Err(violation("self_admin.needs_ready_op_consumed", "update_delay", i, format!("{s:?} went through without a ready operation")));
                             }
                             m.st[*k] = S::Done;
-                            m.min = cfg.delays[*k];
+                            m.effect(cfg, *k);
                         }
                         _ => {}
                     }
@@ -271,10 +302,15 @@ impl Check for Controller {
                     return Err(violation("state.model_eq", "op", i, format!("op {k}: done/pending {done}/{pending}, model {:?}", m.st[k])));
                 }
             }
+            for x in 0..4usize {
+                if c.has_role(&a(x), &canceller_role).is_some() != m.cancellers.contains(&x) {
+                    return Err(violation("self_admin.needs_ready_op_consumed", "roles", i, format!("canceller role of actor {x} disagrees with the model {:?} after {s:?}", m.cancellers)));
+                }
+            }
             if c.get_admin() != Some(id.clone()) {
                 return Err(violation("self_admin.needs_ready_op_consumed", "admin", i, "admin changed".into()));
             }
-            st.state(&(m.st.iter().map(|x| match x { S::Unset => 0u8, S::Done => 3, S::Pending(r) => if *r > m.now { 1 } else { 2 } }).collect::<std::vec::Vec<_>>(), cfg.with_executors));
+            st.state(&(m.st.iter().map(|x| match x { S::Unset => 0u8, S::Done => 3, S::Pending(r) => if *r > m.now { 1 } else { 2 } }).collect::<std::vec::Vec<_>>(), cfg.with_executors, cfg.kinds.clone(), m.cancellers.clone()));
         }
         Ok(())
     }
